@@ -28,7 +28,7 @@ class Prop(BaseProp):
     ]
     rule = ("stream c10: pairs of shards (disjoint, overlapping, identical, empty, all 4x4 flag pairs for a shared file, shared 64-bit prefixes, duplicate chunk hashes) through "
             "shard_set_union/shard_set_difference and MDBInMemoryShard::union/difference, output bytes compared with the model and re-read by the oracle; "
-            "the same file under two different segment lists for all 4x4 flag pairs (oracle only; known finding K2); stream c10c: sequences of shards written to a directory and consolidated under thresholds {0,1,sum,large} (oracle only); "
+            "the same file under two different segment lists for all 4x4 flag pairs (oracle only; known finding K2); stream c10c: sequences of shards (one in five in the streaming form without lookup tables) written to a directory and consolidated under thresholds {0,1,sum,large} (oracle only); "
             "non-trivial = both inputs non-empty; distinct by sha256 of the case text")
 
     def streams(self, rng, tier):
@@ -85,13 +85,26 @@ class Prop(BaseProp):
                 if not fs and not cs:
                     fs, cs = sg.gen_shard(rng, 1, 1, "random", max_chunks=2)
                 seen.append((fs, cs))
-                groups.append([sg.fmt_cas(c) for c in cs] + [sg.fmt_file(f) for f in fs])
+                # one shard in five lies in the directory in the streaming form: records and footer, no lookup tables (what the
+                # minimal reader writes back; a keyed export without its tables has the same shape) -- its table counts are zero,
+                # its records are there all the same (seed C10-r4m1)
+                groups.append((["nolookup"] if rng.random() < 0.2 else []) + [sg.fmt_cas(c) for c in cs] + [sg.fmt_file(f) for f in fs])
             target = rng.choice([0, 1, 1500, 4000, 1 << 20, 1 << 30])
             ops = []
             for g in groups:
                 ops += g + ["=="]
             ops.append("target %d" % target)
             ccases.append({"id": "k%d" % i, "text": " | ".join(ops), "meta": {"kind": "consolidate-%d" % target, "na": n, "nb": 1}})
+        for i in range(3):
+            gs = []
+            for g in range(3):
+                fs, cs = sg.gen_shard(rng, rng.randrange(1, 4), rng.randrange(1, 3), "random", max_chunks=4)
+                gs.append((["nolookup"] if g == (i % 3) or g == 1 else []) + [sg.fmt_cas(c) for c in cs] + [sg.fmt_file(f) for f in fs])
+            ops = []
+            for g in gs:
+                ops += g + ["=="]
+            ops.append("target %d" % (1 << 20))
+            ccases.append({"id": "n%d" % i, "text": " | ".join(ops), "meta": {"kind": "consolidate-with-lookup-free-shards", "na": 3, "nb": 1}})
         # interrupted-consolidation histories: A, B, U = A u B (written by an earlier run that did not get to delete
         # A and B), then C; thresholds chosen so that {A,B} re-creates U byte-for-byte and {U,C} is merged next
         def shard_size(fs, cs):
